@@ -137,6 +137,21 @@ pub open spec fn log_is_prefix(log: Seq<PacketNumberRange>, base: int, s: Seq<(P
     forall|j: int| 0 <= j < log.len() - base ==> #[trigger] log[base + j] == (PacketNumberRange { start: s[j].0, end: s[j].0 })
 }
 
+pub open spec fn detect_post(s: Seq<(PacketNumber, SentPacketInfo)>, old_log: Seq<PacketNumberRange>, new_log: Seq<PacketNumberRange>, paths: Map<int, PathX>,
+    largest: PacketNumber, now: Timestamp, range: Option<PacketNumberRange>) -> bool {
+    let base = old_log.len() as int;
+    let k = new_log.len() - base;
+    &&& 0 <= k <= s.len()
+    &&& new_log.take(base) =~= old_log
+    // every reported packet satisfies the RFC 9002 6.1 condition with the threshold of its own path
+    &&& prefix_lost(s, k, paths, largest, now)
+    // reported once each, in map order: the k first entries of the map
+    &&& log_is_prefix(new_log, base, s)
+    // the range to be removed from the map is exactly [first reported, last reported]
+    &&& (range is Some) == (k > 0)
+    &&& (k > 0 ==> range->Some_0 == (PacketNumberRange { start: s[0].0, end: s[k - 1].0 }))
+}
+
 impl Manager {
 //@ splice-fn quic/s2n-quic-transport/src/recovery/manager.rs "Manager<Config>" detect_lost_packets vis=strip dropstmt=debug_assert! "subst=<Ctx: Context<Config>, Pub: event::ConnectionPublisher>=>@@&mut Ctx=>&mut ContextX@@&mut Pub=>&mut PubX@@self.sent_packets.iter() {=>self.sent_packets.iter() { let unacked_packet_number = *unacked_packet_number;"
 //@| requires
@@ -144,21 +159,7 @@ impl Manager {
 //@|     // the largest acknowledged packet was removed from the map when it was acknowledged (process_ack_range)
 //@|     forall|j: int| 0 <= j < old(self).sent_packets@.len() ==> (#[trigger] old(self).sent_packets@[j]).0 != old(self).largest_acked_packet->Some_0,
 //@| ensures
-//@|     ({
-//@|         let s = old(self).sent_packets@;
-//@|         let base = old(context).lost_log@.len() as int;
-//@|         let k = final(context).lost_log@.len() - base;
-//@|         let largest = old(self).largest_acked_packet->Some_0;
-//@|         &&& 0 <= k <= s.len()
-//@|         &&& final(context).lost_log@.take(base) =~= old(context).lost_log@
-//@|         // every reported packet satisfies the RFC 9002 6.1 condition with the threshold of its own path
-//@|         &&& prefix_lost(s, k, old(context).paths@, largest, now)
-//@|         // reported once each, in map order: the k first entries of the map
-//@|         &&& log_is_prefix(final(context).lost_log@, base, s)
-//@|         // the range to be removed from the map is exactly [first reported, last reported]
-//@|         &&& (ret.1 is Some) == (k > 0)
-//@|         &&& (k > 0 ==> ret.1->Some_0 == (PacketNumberRange { start: s[0].0, end: s[k - 1].0 }))
-//@|     }),
+//@|     detect_post(old(self).sent_packets@, old(context).lost_log@, final(context).lost_log@, old(context).paths@, old(self).largest_acked_packet->Some_0, now, ret.1),
 //@|     final(self).sent_packets@ == old(self).sent_packets@,
 //@|     final(self).largest_acked_packet == old(self).largest_acked_packet,
 //@|     final(context).paths@ == old(context).paths@,
